@@ -4,7 +4,8 @@
 From ClapModel Require Import Base.Bytes Base.Machine.
 From ClapModel Require Import Parse.Cmd Parse.Build Parse.Errors Parse.Parser.
 From ClapModel Require Import Reentrancy.ReentrancyModel Reentrancy.ReentrancyProofs Reentrancy.ReentrancyParse.
-From ClapModel Require Import Reentrancy.ReentrancyDym.
+From ClapModel Require Import Reentrancy.ReentrancyDym Reentrancy.ReentrancyGlobals.
+From ClapModel Require Import Parse.Valid Parse.Matcher ParseProofs.Dispatch.
 From Coq Require Import List.
 From RecordUpdate Require Import RecordSet.
 Import RecordSetNotations ListNotations.
@@ -188,3 +189,49 @@ Theorem C11_history_independence_dym : forall h b c argv,
   /\ parse_levels (xrun c h) argv = parse_levels c argv.
 Proof. exact history_independence_dym. Qed.
 Print Assumptions C11_history_independence_dym.
+
+(** ---- third pass (1b): the propagation of global values runs on the mutated tree
+    ([get_used_global_args] on [self] after the parser returned); the matches are insertion-ordered maps,
+    so the order of the collected ids is observable through [ArgMatches::ids()]. ---- *)
+
+(** the subcommand chain recorded in the parser result follows the nodes this very parse touched: each
+    is settled (built and named by its parent), or it is the last one (an external subcommand) *)
+Theorem C11_recorded_chain_follows_touched : forall fuel c toks st0 fu,
+  mt_sub (mt st0) = None -> nodup_ids (all_subcommand_names c) = true ->
+  holds (fun st => chain_ok fu (touch c (trace_path (parse_trace fuel c toks st0))) (mt_sub (mt st)))
+        (fun st => chain_ok fu (touch c (trace_path (parse_trace fuel c toks st0))) (mt_sub (mt st)))
+        (get_matches_with fuel c toks st0).
+Proof. exact gmw_chain_ok. Qed.
+Print Assumptions C11_recorded_chain_follows_touched.
+
+(** on such a chain [get_used_global_args] returns the same LIST (ids, order, multiplicities) for two
+    trees with the same normal form to every depth *)
+Theorem C11_used_globals_normal_form : forall f c1 c2 m,
+  (forall n, norm_children n c1 = norm_children n c2) ->
+  chain_ok f c1 (ms_sub m) -> chain_ok f c2 (ms_sub m) ->
+  used_global_args f c1 m = used_global_args f c2 m.
+Proof. exact uga_agree. Qed.
+Print Assumptions C11_used_globals_normal_form.
+
+Theorem C11_valid_root_names_distinct : forall c, valid c = true -> root_names_distinct c = true.
+Proof. exact valid_root_names_distinct. Qed.
+Print Assumptions C11_valid_root_names_distinct.
+
+(** the COMPLETE outcome of the next parse -- matches of every level after [propagate_globals], or the
+    error -- after any finite history (failing and mutating parses, renders, clones) is the fresh one *)
+Theorem C11_history_outcome : forall h b c argv,
+  good_name b = true -> xhist_ok b c h = true ->
+  argv_under b (xrun c h) argv = true -> argv_under b c argv = true ->
+  root_names_distinct c = true ->
+  fst (fst (parse_mut (xrun c h) argv)) = fst (fst (parse_mut c argv)).
+Proof. exact history_outcome. Qed.
+Print Assumptions C11_history_outcome.
+
+(** in particular the ids of every level come in the same order *)
+Theorem C11_history_ids_order : forall h b c argv,
+  good_name b = true -> xhist_ok b c h = true ->
+  argv_under b (xrun c h) argv = true -> argv_under b c argv = true ->
+  root_names_distinct c = true ->
+  outcome_ids (fst (fst (parse_mut (xrun c h) argv))) = outcome_ids (fst (fst (parse_mut c argv))).
+Proof. exact history_ids_order. Qed.
+Print Assumptions C11_history_ids_order.
